@@ -149,6 +149,40 @@ def register_evaluate_node(R):
                                           L.heap.get('_eval_cache', s) == L.entry_heap.get('_eval_cache', s), L.heap.get('_eval_stack', s) == L.entry_heap.get('_eval_stack', s),
                                           L.heap.l(r_of(L.heap.get('_eval_stack', s))).eq(L.entry_heap.l(r_of(L.entry_heap.get('_eval_stack', s))))))]
 
+    def replay_direct(repo, obl_name):
+        # the contract's clauses on the real function: small trees, every node evaluated through a fresh context, with and
+        # without a path; the memo is read back through the context's own fields
+        import importlib
+        ay = importlib.import_module('awesomeyaml')
+        from awesomeyaml.nodes.node import ConfigNode
+        EvalContext = importlib.import_module('awesomeyaml.eval_context').EvalContext
+        docs = [{'a': 1}, {'a': {'b': [1, 2]}, 'c': 'x'}, {'a': [{'b': 1}, 2], 'd': {'e': {'f': None}}}]
+        done = 0
+        for doc in docs:
+            root = ConfigNode(doc)
+            entries = [((), root)] + [(tuple(p), n) for p, n in root.ayns.nodes_with_paths()]
+            for path, node in entries:
+                for with_path in (True, False):
+                    ctx = EvalContext()
+                    ctx._cfg = root
+                    ctx._ecfg = EvalContext.PartialChild(importlib.import_module('awesomeyaml.nodes.node_path').NodePath(), ctx, root)
+                    try:
+                        res = ctx.evaluate_node(node, list(path)) if with_path else ctx.evaluate_node(node)
+                    except Exception as e:
+                        continue        # a node below a list evaluated out of its parent's turn: not a state the library reaches
+                    done += 1
+                    memo = ctx._eval_cache_id
+                    inp = {'document': doc, 'node_path': list(path), 'prefix_given': with_path}
+                    if id(node) not in memo or memo[id(node)] is not res:
+                        return {'verdict': 'violates', 'input': inp,
+                                'detail': f'evaluate_node on the node at {list(path)!r} of {doc!r}: returned {res!r} but the memo does not map the identity of the node to it (keys written: {len(memo)})'}
+                    again = ctx.evaluate_node(node, list(path)) if with_path else ctx.evaluate_node(node)
+                    if again is not res:
+                        return {'verdict': 'violates', 'input': inp, 'detail': f'second evaluate_node of the same node at {list(path)!r} returned a different object'}
+        if done < 6:
+            return {'verdict': 'error', 'detail': f'only {done} sample evaluations completed', 'input': None}
+        return {'verdict': 'holds', 'detail': f'memo written under the identity of the evaluated node on all {done} samples', 'input': None}
+
     for nm, pref in (('with-path', P.path('prefix')), ('no-path', P.const('prefix', None))):
         R.add(Contract(E + 'EvalContext.evaluate_node', [ctx(), P.node('cfgobj', 'ConfigNode'), pref], name=nm, requires=req,
                        modifies=lambda c: [(f, 'all') for f in CACHE + ('$llen', '$litem')],
@@ -156,9 +190,9 @@ def register_evaluate_node(R):
                        raises=[Raises('UnsafeError', name='C07.UnsafeError'), Raises('EvalError'),
                                Raises('ValueError'), Raises('KeyError'), Raises('TypeError')],
                        result=P.val('result', 'any'), props=('C10', 'C07'),
-                       loops={0: Loop(inv, mod_locals=['enode', 'p'], mod_fields=[], mod_at=None)},
-                       opts={'gates': {'on-evaluate': gate_once}, 'no_search': True, 'callee': nm == 'with-path',
-                             'loop_havoc_partial_children': True},
+                       loops={0: Loop(inv, mod_locals=['enode', 'p'], mod_fields=[],
+                                      mod_where=lambda c, L: [(f, (lambda r, c=c, L=L: z3.Or(c.eng.isinstance_term(L.entry_heap.cls(r), 'PartialChild'), r < -1000000))) for f in CACHE])},
+                       opts={'gates': {'on-evaluate': gate_once}, 'no_search': True, 'callee': nm == 'with-path', 'replay_direct': replay_direct, 'shards': 6},
                        note='memoised evaluation of one node by identity'))
     R.add(Contract(E + 'EvalContext.evaluate_node', [ctx(), P.val('cfgobj', 'prim'), P.const('prefix', None)], name='plain-value', pure=True,
                    ensures=[('C11.plain-values-pass-through', lambda c: c.rt == c['cfgobj'])], result=P.val('result', 'any'), props=('C10', 'C11'),
@@ -221,10 +255,43 @@ def register_xref(R):
                    note='evaluate_node with a path given as text (proved for list paths: with-path / no-path)'))
 
 
-def _reg_all(R):
-    register(R)
-    register_evaluate_node(R)
-    register_xref(R)
+def register_context_init(R):
+    """EvalContext.__init__: the symbols of a context are an object of its own (C12: a build never sees what an earlier build
+    supplied) - the process-wide default table is read, never written, and never handed out."""
+    DEF = '$classattr:EvalContext._default_eval_symbols'
+    R.inline_keys |= {E + 'EvalContext.get_default_eval_symbols'}
+
+    def setup(it, fr, sc):
+        # the class-level default table: some dict object that exists before the call (it is mutable process-wide state)
+        it.run.assume(it.heap.get(DEF, z3.IntVal(0)) == it.spec_args['$defaults'].t)
+
+    def own(c):
+        return r_of(c.post.get('_eval_symbols', c.ref('self')))
+
+    def ens(c):
+        d = c.ref('$defaults')
+        k = z3.Const('!sk', Val)
+        m0 = c.pre.m(d)
+        m1 = c.post.m(own(c))
+        given = c['eval_symbols']
+        gm = c.pre.m(r_of(given))
+        use = z3.And(is_ref(given), gm.len != 0)
+        return [('C12.symbols-of-a-context-are-an-object-of-its-own', z3.And(is_ref(c.post.get('_eval_symbols', c.ref('self'))), own(c) != d,
+                                                                            z3.Not(c.alive(own(c))), z3.Implies(is_ref(given), own(c) != r_of(given)))),
+                ('C12.process-wide-default-symbols-untouched', z3.And(c.post.m(d).eq(m0), c.post.get(DEF, z3.IntVal(0)) == c.pre.get(DEF, z3.IntVal(0)))),
+                ('C12.symbols-are-the-defaults-updated-with-the-given-ones',
+                 S.FA([k], z3.And(m1.has(k) == z3.Or(m0.has(k), z3.And(use, gm.has(k))),
+                                  z3.Implies(z3.And(use, gm.has(k)), m1.get(k) == gm.get(k)),
+                                  z3.Implies(z3.And(m0.has(k), z3.Not(z3.And(use, gm.has(k)))), m1.get(k) == m0.get(k))), patterns=[m1.get(k)]))]
+
+    for nm, par in (('without-symbols', P.const('eval_symbols', None)), ('with-symbols', P.map('eval_symbols'))):
+      R.add(Contract(E + 'EvalContext.__init__', [P.node('self', 'EvalContext', exact=True), par, P.map('$defaults')], name=nm,
+                   requires=lambda c: [('lens', z3.And(c.pre.m(c.ref('$defaults')).len >= 0,
+                                                       z3.Implies(is_ref(c['eval_symbols']), z3.And(c.pre.m(r_of(c['eval_symbols'])).len >= 0, r_of(c['eval_symbols']) != c.ref('$defaults')))))],
+                   modifies=lambda c: [(f, [c.ref('self')]) for f in ('_cfg', '_ecfg', '_removed_nodes', '_eval_cache', '_eval_cache_id', '_eval_symbols',
+                                                                      '_require_all_safe', '_eval_stack', 'user_data')],
+                   ensures=[('init', ens)], props=('C12',), opts={'setup': setup, 'no_search': True, 'verify_only': True},
+                   note='construction of an evaluation context; the class attribute holding the default symbols is modelled as a pre-existing dict object'))
 
 
 def register_evalnode(R):
@@ -295,4 +362,5 @@ def _reg_all(R):
     register(R)
     register_evaluate_node(R)
     register_xref(R)
+    register_context_init(R)
     register_evalnode(R)
